@@ -564,8 +564,10 @@ class Gen(object):
         fields = []
         for i in range(n):
             ft = self._ty(d - 1)
-            # make tag collisions rare: context-tag most members by position
-            if r.random() < 0.6:
+            # make tag collisions rare: context-tag most members by position; an untagged CHOICE nested directly in
+            # a CHOICE / SET / SEQUENCE (found by the tags of its alternatives) is kept untagged more often
+            nested_choice = ft[0] == 'choice'
+            if r.random() < (0.25 if nested_choice else 0.6):
                 ft = ('tag', r.choice('ei') if (self.allow_implicit and base_of(ft)[0] not in ('choice', 'any')) else 'e',
                       'c', i, ft)
             kind = 'r'
@@ -686,6 +688,8 @@ class Gen(object):
         if k == 'str':
             x = r.random()
             n = 0 if x < 0.15 else (r.randrange(1, 12) if x < 0.9 else r.randrange(12, 70))
+            if r.random() < 0.04:
+                n = r.choice([126, 127, 128, 129, 255, 256, 257])       # around the length-form boundaries
             return ('s', self.text_octets(b[1], n))
         if k in ('seq', 'set'):
             out = []
